@@ -285,16 +285,37 @@ func (s *store) age(a *alphabet) error {
 			if err := b.Set(a.key(p[0]), a.val(p[1])); err != nil {
 				return err
 			}
-		} else {
-			// last generation: give background work (leveldb table compaction) time to finish, so that
-			// every history of the run starts from the same files. Too short a pause costs coverage only.
-			time.Sleep(400 * time.Millisecond)
 		}
+		// Let background work (leveldb table compaction, which rewrites and deletes files) finish before
+		// closing, so that every run - and every replay - starts its histories from the same files: wait
+		// until the store's directory has not changed for a while. Too short a wait costs coverage only.
+		settle(s.dir)
 		if err := b.Close(); err != nil {
 			return err
 		}
 	}
 	return nil
+}
+
+// settle returns when the file names and sizes under dir have been the same for 250 ms (at most 5 s).
+func settle(dir string) {
+	snapshot := func() string {
+		var sb strings.Builder
+		filepath.Walk(dir, func(p string, fi os.FileInfo, err error) error {
+			if err == nil && !fi.IsDir() {
+				fmt.Fprintf(&sb, "%s:%d;", p, fi.Size())
+			}
+			return nil
+		})
+		return sb.String()
+	}
+	last, since, t0 := snapshot(), time.Now(), time.Now()
+	for time.Since(since) < 250*time.Millisecond && time.Since(t0) < 5*time.Second {
+		time.Sleep(25 * time.Millisecond)
+		if cur := snapshot(); cur != last {
+			last, since = cur, time.Now()
+		}
+	}
 }
 
 func (s *store) open() error {
